@@ -768,7 +768,8 @@ pub fn main_arm(spec: Spec, k: u32, replay: Option<String>) {
     let mut spec = spec;
     if let Some((ty, path)) = spec.op.clone().split_once('.') {
         spec.params.insert("ty".to_string(), ty.to_string());
-        spec.op = path.to_string();
+        // op=<ty>.<path>.<label>: the label only names the obligation's role
+        spec.op = path.split('.').next().unwrap().to_string();
     }
     match spec.params.get("ty").map(|s| s.as_str()).unwrap_or("native") {
         "bit" | "byte" | "native" | "biguint" => run::<KNative>(&spec, k, replay),
